@@ -16,8 +16,8 @@ CONSTANTS Depth, MaxTime,
           Faults,       \* peer_close / peer_reset / connect failures
           Known         \* signatures of open findings (not counted as violations)
 
-VARIABLES S, M, n, lastAct
-vars == <<S, M, n, lastAct>>
+VARIABLES S, M, n, lastAct, hist
+vars == <<S, M, n, lastAct, hist>>
 
 SetSeq(s) == IF s = {} THEN <<>> ELSE LET RECURSIVE F(_) F(t) == IF t = {} THEN <<>> ELSE LET x == CHOOSE y \in t : TRUE IN <<x>> \o F(t \ {x}) IN F(s)
 MCfgV == [node |-> NodeCfg, peerOrder |-> PeerOrder, peers |-> PeerCfg, appOrder |-> AppOrder,
@@ -56,6 +56,10 @@ Msgs(c) ==
   LET sp == Speakers(c) IN
   (IF "cer" \in Alpha /\ S.conn[c].dir = "in" /\ S.conn[c].st = "CONNECTED" /\ S.conn[c].nodeName = ""   \* at most one CER per connection
      THEN {Mk("CE", 257, TRUE, 1, 1, 0, h, "", 0, FALSE, TRUE, FALSE, au, <<>>, FALSE) : h \in Hosts, au \in {<<RegApp>>, <<77>>}} ELSE {}) \cup
+  (IF "ceaok" \in Alpha /\ S.conn[c].dir = "out" /\ S.conn[c].st = "CONNECTED"
+     THEN {Mk("CE", 257, FALSE, S.conn[c].hbh, S.e2e, 0, S.conn[c].nodeName, "", 2001, FALSE, TRUE, FALSE, <<RegApp>>, <<>>, FALSE)} ELSE {}) \cup
+  (IF "cerok" \in Alpha /\ S.conn[c].dir = "in" /\ S.conn[c].st = "CONNECTED" /\ S.conn[c].nodeName = ""
+     THEN {Mk("CE", 257, TRUE, 1, 1, 0, PeerOrder[1], "", 0, FALSE, TRUE, FALSE, <<RegApp>>, <<>>, FALSE)} ELSE {}) \cup
   (IF "cea" \in Alpha /\ S.conn[c].dir = "out" /\ S.conn[c].st = "CONNECTED"
      THEN {Mk("CE", 257, FALSE, S.conn[c].hbh, S.e2e, 0, h, "", rc, FALSE, TRUE, FALSE, <<RegApp>>, <<>>, FALSE)
              : h \in {S.conn[c].nodeName, ""}, rc \in {2001, 3010}} ELSE {}) \cup
@@ -66,6 +70,8 @@ Msgs(c) ==
   (IF "req" \in Alpha
      THEN {Mk("APP", 272, TRUE, id[1], id[2], ap, h, rl, 0, t, TRUE, FALSE, <<>>, <<>>, FALSE)
              : id \in Ids, ap \in {RegApp, 9}, h \in sp, rl \in {NodeCfg.realm, "r9"}, t \in {FALSE, TRUE}} ELSE {}) \cup
+  (IF "req1" \in Alpha
+     THEN {Mk("APP", 272, TRUE, 1, 1, RegApp, h, NodeCfg.realm, 0, FALSE, TRUE, FALSE, <<>>, <<>>, FALSE) : h \in sp} ELSE {}) \cup
   (IF "ans" \in Alpha THEN {Mk("APP", 272, FALSE, 1, 1, RegApp, h, "", 2001, FALSE, TRUE, FALSE, <<>>, <<>>, FALSE) : h \in sp \cup {""}} ELSE {}) \cup
   (IF "sans" \in Alpha     \* answers (also late and repeated ones) to the requests the node sent on this connection
      THEN {Mk("APP", 272, FALSE, S.snd[j].hbh, S.snd[j].e2e, AppCfg[S.snd[j].a].id, h, "", 2001, FALSE, TRUE, FALSE, <<>>, <<>>, FALSE)
@@ -74,13 +80,20 @@ Msgs(c) ==
 
 Usable(c) == S.conn[c].used /\ S.conn[c].sock = "open" /\ ~S.conn[c].connecting /\ S.conn[c].st # "CONNECTING"
              /\ ~S.conn[c].remoteClosed /\ ~S.conn[c].recvErr
+Whole(c) == Usable(c) /\ ~S.frag[c]      \* no half-delivered message pending on c
 Acts ==
   (IF S.now < MaxTime THEN {[a |-> "tick"]} ELSE {}) \cup
   (IF S.nconn < MaxConn THEN {[a |-> "connect"]} ELSE {}) \cup
-  UNION {{[a |-> "feed", c |-> c, ms |-> <<m>>] : m \in Msgs(c)} : c \in {x \in ConnIds : Usable(x)}} \cup
+  UNION {{[a |-> "feed", c |-> c, ms |-> <<m>>] : m \in Msgs(c)} : c \in {x \in ConnIds : Whole(x)}} \cup
   (IF Pairs THEN UNION {{[a |-> "feed", c |-> c, ms |-> <<m1, m2>>] : m1 \in {x \in Msgs(c) : x.cmd = "CE"}, m2 \in {x \in Msgs(c) : x.cmd \in {"APP", "DW"} /\ x.req}}
-                        : c \in {x \in ConnIds : Usable(x)}} ELSE {}) \cup
+                        : c \in {x \in ConnIds : Whole(x)}} ELSE {}) \cup
   (IF Faults THEN UNION {{[a |-> "peer_close", c |-> c], [a |-> "peer_reset", c |-> c]} : c \in {x \in ConnIds : Usable(x)}} ELSE {}) \cup
+  (IF "garbage" \in Alpha THEN {[a |-> "garbage", c |-> c] : c \in {x \in ConnIds : Whole(x)}} ELSE {}) \cup
+  \* a watchdog request delivered in two network reads (first half, then the rest)
+  (IF "frag" \in Alpha
+     THEN UNION {{[a |-> "frag", c |-> c, i |-> IF S.frag[c] THEN 2 ELSE 1, n |-> 2,
+                   m |-> Mk("DW", 280, TRUE, 3, 3, 0, h, "", 0, FALSE, TRUE, FALSE, <<>>, <<>>, FALSE)] : h \in {PeerOrder[1]}}
+                 : c \in {x \in ConnIds : Usable(x)}} ELSE {}) \cup
   (IF "send" \in Alpha /\ Len(S.snd) < 2
      THEN {[a |-> "send", k |-> Len(S.snd) + 1, app |-> ap, realm |-> rl, timeout |-> to, pick |-> pk]
              : ap \in Apps, rl \in {NodeCfg.realm, "r9"}, to \in {1, 30}, pk \in {"first", "last"}} ELSE {}) \cup
@@ -94,21 +107,28 @@ Acts ==
 
 StartAct == [a |-> "start"]
 Init == LET S1 == StepOf(InitState, StartAct) IN
-        /\ S = S1 /\ n = 0 /\ lastAct = StartAct
+        /\ S = S1 /\ n = 0 /\ lastAct = StartAct /\ hist = <<StartAct>>
         /\ M = MonStep(MonInit, TraceStep(S1, StartAct))
 Next == /\ n < Depth
         /\ \E act \in Acts :
              LET S1 == StepOf(S, act) IN
-             /\ S' = S1 /\ lastAct' = act /\ n' = n + 1
+             /\ S' = S1 /\ lastAct' = act /\ n' = n + 1 /\ hist' = Append(hist, act)
              /\ M' = MonStep(M, TraceStep(S1, act))
 Spec == Init /\ [][Next]_vars
 \* behaviour generation (-simulate): one random action per step, monitors not evaluated
 SimNext == /\ n < Depth /\ Acts # {}
            /\ \E act \in {RandomElement(Acts)} :      \* (bound once: a LET would draw again at every use)
-                /\ S' = StepOf(S, act) /\ lastAct' = act /\ n' = n + 1 /\ M' = M
+                /\ S' = StepOf(S, act) /\ lastAct' = act /\ n' = n + 1 /\ M' = M /\ hist' = hist
 SimSpec == Init /\ [][SimNext]_vars
 
 View == <<[S EXCEPT !.out = <<>>], M, n>>
+\* enumeration of every history of a small instance (spec -> code, exhaustive): histories are states, monitors idle
+EnumNext == /\ n < Depth
+            /\ \E act \in Acts :
+                 /\ S' = StepOf(S, act) /\ lastAct' = act /\ n' = n + 1 /\ hist' = Append(hist, act) /\ M' = M
+EnumSpec == Init /\ [][EnumNext]_vars
+ViewH == <<n, hist>>
+PrintHist == (n = Depth \/ Acts = {}) => PrintT(<<"HIST", hist>>)
 Sigs(vs) == {v.sig : v \in vs}
 Inv06 == S.overflow \/ Sigs(M.c06.viol) \subseteq Known
 Inv07 == S.overflow \/ Sigs(M.c07.viol) \subseteq Known
